@@ -69,11 +69,13 @@ def run(ctx):
             for p in parts:
                 if rng.random() < 0.12:
                     continue            # no partition record: zero capacity
-                cap = dict(cpu=rng.choice([100, 400, 1000]), memory=rng.choice([1024, 4096, 16384]),
-                           disk=rng.choice([1024, 4096, 16384]))
+                roomy = rng.random() < 0.5       # partition roomy, trait limits binding
+                cap = dict(cpu=rng.choice([100, 400, 1000]) * (8 if roomy else 1),
+                           memory=rng.choice([1024, 4096, 16384]) * (8 if roomy else 1),
+                           disk=rng.choice([1024, 4096, 16384]) * (8 if roomy else 1))
                 limits = []
-                for t in rng.sample(TRAITS, rng.choice([0, 0, 1, 2, 3])):
-                    limits.append(dict(trait=t, cpu='%d%%' % rng.choice([0, 100, 200, 500]),
+                for t in rng.sample(TRAITS, rng.choice([0, 1, 2, 3, 4] if roomy else [0, 0, 1, 2, 3])):
+                    limits.append(dict(trait=t, cpu='%d%%' % rng.choice([0, 100, 200, 500, 800]),
                                        memory=spell_bytes(rng, rng.choice([0, 512, 2048, 8192])),
                                        disk=spell_bytes(rng, rng.choice([0, 512, 2048, 8192]))))
                 rec = dict(cpu='%d%%' % cap['cpu'], memory=spell_bytes(rng, cap['memory']),
@@ -103,8 +105,8 @@ def run(ctx):
                         disk=spell_bytes(rng, rng.choice([0, 128, 512, 1024, 2048, 4096]) * scale))
             if rng.random() < 0.75 or verb == 'update' and rng.random() < 0.8:
                 rsrc['partition'] = rng.choice(parts)
-            if rng.random() < 0.6:
-                rsrc['traits'] = rng.sample(TRAITS, rng.randint(0, 3))
+            if rng.random() < 0.7:
+                rsrc['traits'] = rng.sample(TRAITS, rng.choice([0, 1, 2, 2, 3, 4]))
             if rng.random() < 0.3:
                 rsrc['rank'] = rng.randint(0, 100)
             # ---- independent decision
